@@ -455,6 +455,30 @@ theorem splitGo_fit {α} (size : α → Nat) (l cur : List α) (sz : Nat) (hsz :
         simp at hsz; subst hsz; simpa using he
       · omega
 
+theorem splitGo_nonempty {α} (size : α → Nat) (l cur : List α) (sz : Nat) (h : cur ≠ [] ∨ l ≠ []) :
+    ∀ p ∈ splitGo size l cur sz, p ≠ [] := by
+  induction l generalizing cur sz with
+  | nil =>
+    intro p hp
+    simp only [splitGo, List.mem_singleton] at hp
+    subst hp
+    rcases h with h | h
+    · simpa using h
+    · exact absurd rfl h
+  | cons e r ih =>
+    unfold splitGo
+    split
+    · rename_i hc
+      intro p hp
+      rcases List.mem_cons.mp hp with rfl | hp'
+      · simpa using hc.2
+      · exact ih [e] (size e) (.inl (by simp)) p hp'
+    · exact ih (e :: cur) (sz + size e) (.inl (by simp))
+
+/-- no part of a non-empty list is empty -/
+theorem splitParts_nonempty {α} (size : α → Nat) (l : List α) (h : l ≠ []) : ∀ p ∈ splitParts size l, p ≠ [] :=
+  splitGo_nonempty size l [] 0 (.inr h)
+
 /-- every part fits into one message when every single entry does -/
 theorem splitParts_fit {α} (size : α → Nat) (l : List α) (hl : ∀ e ∈ l, size e ≤ partLimit) :
     ∀ p ∈ splitParts size l, (p.map size).sum ≤ partLimit :=
